@@ -266,6 +266,7 @@ func ruleP18Format(p *Prog, r *Report) {
 		return
 	}
 	var describe func(f *ssa.Function, v ssa.Value) []string
+	describeDepth := 0
 	describe = func(f *ssa.Function, v ssa.Value) []string {
 		var leaves []ssa.Value
 		concatLeaves(v, &leaves, 0)
@@ -300,6 +301,22 @@ func ruleP18Format(p *Prog, r *Report) {
 				}
 				out = append(out, recv+"."+fnBase(staticCallee(c))+"()")
 				continue
+			}
+			// a field of a row of a local table of struct literals ({condition, sequence} pairs
+			// walked in a loop): whatever the field holds in any row
+			if base, fld := fieldLoad(l); fld != "" && base != nil {
+				if coll := rangeElemOf(base); coll != nil {
+					if vals, okT := tableFieldValues(coll, fld); okT && describeDepth < 3 {
+						describeDepth++
+						for _, tv := range vals {
+							out = append(out, describe(f, tv)...)
+						}
+						describeDepth--
+					} else {
+						out = append(out, "?")
+					}
+					continue
+				}
 			}
 			if _, fld := fieldLoad(l); fld != "" {
 				out = append(out, "field:"+fld)
@@ -684,4 +701,46 @@ func ruleP18Confine(p *Prog, r *Report) {
 	if n < 10 {
 		r.undecided(rule, "floor", "-", "found %d accesses to Styler fields, expected at least 10", n)
 	}
+}
+
+// tableFieldValues: coll is a slice literal of structs built field by field; returns what the
+// named field is set to in its rows (ok=false when a row is written in any other way).
+func tableFieldValues(coll ssa.Value, field string) ([]ssa.Value, bool) {
+	sl, ok := strip(coll).(*ssa.Slice)
+	if !ok {
+		return nil, false
+	}
+	arr, ok := sl.X.(*ssa.Alloc)
+	if !ok {
+		return nil, false
+	}
+	var vals []ssa.Value
+	for _, ref := range *arr.Referrers() {
+		switch x := ref.(type) {
+		case *ssa.Slice:
+		case *ssa.IndexAddr:
+			for _, r2 := range *x.Referrers() {
+				fa, isFA := r2.(*ssa.FieldAddr)
+				if !isFA {
+					return nil, false
+				}
+				st, isStruct := fa.X.Type().Underlying().(*types.Pointer).Elem().Underlying().(*types.Struct)
+				if !isStruct {
+					return nil, false
+				}
+				for _, r3 := range *fa.Referrers() {
+					s3, isSt := r3.(*ssa.Store)
+					if !isSt || s3.Addr != ssa.Value(fa) {
+						return nil, false
+					}
+					if st.Field(fa.Field).Name() == field {
+						vals = append(vals, s3.Val)
+					}
+				}
+			}
+		default:
+			return nil, false
+		}
+	}
+	return vals, len(vals) > 0
 }
